@@ -49,6 +49,19 @@ def json_text(rng, depth=0):
     return "{" + ", ".join(json.dumps(k) + sep + json_text(rng, depth + 1) for k in keys) + "}"
 
 
+TRICKY = ["1e3", "1E-5", "2e+7", "1.5e3", "1.e3", "1.0e+3", "-1e3", "+1E5", ".5", "5.", "1_000", "1_0e1_0", "0x1F", "0o17", "017", "0b101", "1:30", "12:30:45",
+          "190:20:30.15", "~", "null", "Null", "yes", "No", "on", "OFF", "y", "n", "true", "False", "=", "<<", "2001-01-01", "2001-12-14t21:59:43.10-05:00",
+          "2001-12-14 21:59:43.10 -5", ".inf", "-.Inf", ".NaN", "1e", "e3", "1e3e4", "1.5.2", "", " 1e3", "1e3 ", "0", "-0", "+1", "1e+", "0e0", "00e1", "9E99"]
+
+
+def tricky_strings(rng, n):
+    out = list(TRICKY)
+    alphabet = "0123456789eE+-._:xob"
+    while len(out) < n:
+        out.append("".join(rng.choice(alphabet) for _ in range(rng.choice([1, 2, 3, 3, 4, 5, 6]))))
+    return out
+
+
 def same_value(a, b):
     if isinstance(a, bool) or isinstance(b, bool) or a is None or b is None:
         return a is b
@@ -80,6 +93,22 @@ def correspond(ctx):
             bad += 1
             if bad <= 5:
                 ctx.tie_broken("correspondence", f"load_yaml differs from json.loads on {t[:200]!r}: {str(got)[:200]!r} vs {want!r}"[:600], "", hint=("json", t))
+    # strings that look like other YAML scalars: written by yaml.safe_dump (plain where the stock resolver takes them for
+    # strings, quoted otherwise) and read back by the patched loader they must still be the same strings
+    import yaml
+    for sv in tricky_strings(rng, ctx.n(600, 8000)):
+        for v in (sv, [sv], {"enum": [sv, "x"], "default": sv}, {sv: 1}):
+            ctx.count("eval_yaml_roundtrip")
+            text = yaml.safe_dump(v, sort_keys=False, allow_unicode=True)
+            try:
+                got = load_yaml(text)
+            except Exception as e:  # noqa: BLE001
+                got = e
+            if isinstance(got, Exception) or not same_value(v, got) or repr(v) != repr(got):
+                bad += 1
+                if bad <= 5:
+                    ctx.tie_broken("correspondence", f"load_yaml(yaml.safe_dump(v)) differs from v for {v!r}: {str(got)[:200]!r}"[:600], "", hint=("string", sv))
+        ctx.nontrivial("s:" + sv)
     ctx.count("disagreements", bad)
     ctx.sample({"json_text": json_text(ctx.rng("sample"))})
 
@@ -261,6 +290,35 @@ def falsify(ctx):
             why = json_vs_yaml(jt)
             if why:
                 report("json-vs-yaml:" + h[1][:100], f"JSON text {h[1][:100]!r}: {why}", {"json_text": jt})
+    # string values that look like other scalars, as enum members / defaults / const: JSON text vs its YAML rendition
+    for sv in (TRICKY if ctx.thorough else TRICKY[::2] + [h[1] for h in ctx.hints if h[0] == "string"][:5]):
+        jt = json.dumps({"title": "Root", "type": "object", "properties": {"a": {"type": "string", "enum": [sv, "x"]}, "b": {"type": "string", "default": sv}}})
+        ctx.count("eval_e2e", 2)
+        ctx.bucket("family", "string-lookalike")
+        ctx.nontrivial("lookalike:" + sv)
+        why = json_vs_yaml(jt)
+        if why:
+            report("json-vs-yaml:" + sv, f"string value {sv!r}: {why}", {"json_text": jt})
+    # a named schema and an inline member whose derived class name is the same, in every declaration order, with and without
+    # an earlier reference to the named one: the numbering of the two classes must not depend on the container
+    import itertools
+    named = {"Address": {"type": "object", "properties": {"street": {"type": "string"}}},
+             "Status": {"type": "string", "enum": ["open", "closed"]},
+             "Customer": {"type": "object", "properties": {"address": {"type": "object", "properties": {"zip": {"type": "string"}}},
+                                                           "status": {"type": "string", "enum": ["new", "old"]},
+                                                           "tags": {"type": "array", "items": {"type": "object", "properties": {"t": {"type": "string"}}}}}},
+             "Tag": {"type": "object", "properties": {"label": {"type": "string"}}},
+             "Order": {"type": "object", "properties": {"ship_to": {"$ref": "#/definitions/Address"}, "state": {"$ref": "#/definitions/Status"}, "tag": {"$ref": "#/definitions/Tag"}}}}
+    orders = list(itertools.permutations(["Address", "Status", "Customer", "Order"]))
+    for order in (orders if ctx.thorough else orders[::3]):
+        defs = {k: named[k] for k in (*order, "Tag")}
+        root = {"type": "object", "properties": {"c": {"$ref": "#/definitions/Customer"}}}
+        why, n = compare_matrix(rng, defs, root, {})
+        ctx.count("eval_e2e", n)
+        ctx.bucket("family", "inline-vs-named")
+        ctx.nontrivial("clash:" + ",".join(order))
+        if why:
+            report(f"matrix:{{}}:{json.dumps([defs, root], sort_keys=False)}", f"declaration order {order}: {why}", {"defs": defs, "root": root, "opts": {}})
     option_pool = [{}, {}, {"field_constraints": True}, {"snake_case_field": True}, {"use_standard_collections": True}, {"use_title_as_name": True}]
     for i in range(ctx.n(28, 500)):
         doc = ss.gen_document(rng)
